@@ -948,6 +948,7 @@ where
             max_size,
         })));
         let inner_task = inner.clone();
+        let started_done = self.is_done();
 
         // Process change events.
         let tx_send = tx.clone();
@@ -983,6 +984,11 @@ where
                             // A subscription taken after the collection was marked done is
                             // done from the start, but still delivers its initial value.
                             if inner.done && inner.complete {
+                                // Subscribers that joined while the initial value was still
+                                // being received have seen no done event so far.
+                                if started_done && tx_send.receiver_count() > 0 {
+                                    let _ = tx_send.send(HashMapEvent::Done);
+                                }
                                 break;
                             }
                         }
@@ -1084,7 +1090,7 @@ where
     pub async fn subscribe(&self, buffer: usize) -> Result<HashMapSubscription<K, V, Codec>, RecvError> {
         let view = self.borrow().await?;
         let initial = view.clone();
-        let events = if view.is_done() { None } else { Some(self.tx.subscribe(buffer)) };
+        let events = if view.is_done() && view.is_complete() { None } else { Some(self.tx.subscribe(buffer)) };
 
         Ok(HashMapSubscription::new(HashMapInitialValue::new_value(initial), events))
     }
@@ -1101,7 +1107,7 @@ where
     ) -> Result<HashMapSubscription<K, V, Codec>, RecvError> {
         let view = self.borrow().await?;
         let initial = view.clone();
-        let events = if view.is_done() { None } else { Some(self.tx.subscribe(buffer)) };
+        let events = if view.is_done() && view.is_complete() { None } else { Some(self.tx.subscribe(buffer)) };
 
         Ok(HashMapSubscription::new(
             HashMapInitialValue::new_incremental(initial, Arc::new(default_on_err)),
